@@ -85,6 +85,24 @@ pub fn run(ctx: &Ctx) -> i32 {
         let mut a = vec!["run", runfile.as_str(), "--minimal"];
         a.extend(flag);
         let r = lace.run(&a, b"");
+        // the other ways of running the same file must behave like `run`: the bare-path form,
+        // and (for sources) the debugger detached at once
+        {
+            let mut b = vec![runfile.as_str(), "--minimal"];
+            b.extend(flag);
+            let bare = lace.run(&b, b"");
+            if bare.status != r.status || program_output(&bare.out()) != program_output(&r.out()) {
+                acc.violation(format!("C18/bare-path-differs-from-run/{}/{}", c.uses_ext, if on { "on" } else { "off" }), format!("`lace {} {:?}` exits {} but `lace run` exits {}", c.name, flag, bare.status, r.status), case.clone());
+            }
+            if c.text.is_some() {
+                let mut d = vec!["debug", runfile.as_str(), "--minimal", "--command", "quit"];
+                d.extend(flag);
+                let dbg = lace.run(&d, b"");
+                if dbg.status != r.status || program_output(&dbg.out()) != program_output(&r.out()) {
+                    acc.violation(format!("C18/debug-differs-from-run/{}/{}", c.uses_ext, if on { "on" } else { "off" }), format!("`lace debug {} {:?} --command quit` exits {} but `lace run` exits {}", c.name, flag, dbg.status, r.status), case.clone());
+                }
+            }
+        }
         for ext in ["asm", "lc3"] {
             let _ = std::fs::remove_file(lace.cwd.join(format!("{base}.{ext}")));
         }
@@ -217,7 +235,7 @@ pub fn run(ctx: &Ctx) -> i32 {
         ctx,
         acc,
         Level { category: "model_checking", bfs: None },
-        "exhaustive configuration enumeration: {no flag, -f stack, --features stack, --features=} x sources using each of push/pop/call/rets as instruction (three letter cases), in label position and as a label operand; sources and .lc3 images with raw xD words of all four sub-kinds reached at run time (and present but never reached); 8 seed programs without the extension - through `lace compile` and `lace run` of the real binary: without the flag the diagnostic must name the feature and opcode xD must exit with status 1 having executed only what precedes it, with it the programs assemble and run as the reference machine says. In-process: a corpus of programs without the four mnemonics (E1 single statements, E2 label placements, .fill sweep) and the C03 templates without opcode xD, assembled / run under BOTH flag values and compared with the flag-independent reference. non-trivial = agreeing cases",
+        "exhaustive configuration enumeration: {no flag, -f stack, --features stack, --features=} x sources using each of push/pop/call/rets as instruction (three letter cases), in label position and as a label operand; sources and .lc3 images with raw xD words of all four sub-kinds reached at run time (and present but never reached); 8 seed programs without the extension - through `lace compile`, `lace run`, the bare-path form `lace FILE` and `lace debug FILE --command quit` of the real binary (the latter two must behave like `run`): without the flag the diagnostic must name the feature and opcode xD must exit with status 1 having executed only what precedes it, with it the programs assemble and run as the reference machine says. In-process: a corpus of programs without the four mnemonics (E1 single statements, E2 label placements, .fill sweep) and the C03 templates without opcode xD, assembled / run under BOTH flag values and compared with the flag-independent reference. non-trivial = agreeing cases",
         true,
         &["rejected-with-feature-diagnostic", "opcode-xD-gated-at-run-time", "extension-executes-with-flag", "corpus-image-flag-independent", "run-flag-independent"],
         &["reference image and machine are flag-independent for programs that avoid the extension"],
